@@ -60,12 +60,10 @@ PIN_FILE = os.path.join(os.path.dirname(os.path.abspath(__file__)), "c05_pins.js
 
 
 def ast_hash(fn: ast.AST) -> str:
-    fn = ast.parse(ast.unparse(fn)).body[0]          # fresh copy; drops comments/formatting
-    for n in ast.walk(fn):
-        if isinstance(n, (ast.FunctionDef, ast.ClassDef)) and n.body and isinstance(n.body[0], ast.Expr) \
-                and isinstance(n.body[0].value, ast.Constant) and isinstance(n.body[0].value.value, str):
-            n.body = n.body[1:] or [ast.Pass()]
-    return hashlib.sha1(ast.dump(fn).encode()).hexdigest()[:12]
+    """hash of the NORMALISED function (vlib.py2v.norm_hash): stable under docstring / comment / annotation / logging /
+    local-renaming edits, sensitive to every executable difference"""
+    from vlib import py2v
+    return py2v.norm_hash(fn)
 
 
 # ------------------------------------------------------------------------------------------------
@@ -109,7 +107,7 @@ class Sym:
             return v
         if v[0] == "arg" and v[2] == "str":
             return ("parsecol", v[1])
-        if v[0] == "arg" and v[2] == "py":
+        if v[0] == "arg" and v[2] in ("py", "int", "int0"):
             return ("litcol", v[1])
         if v[0] == "const":
             if isinstance(v[1], str):
@@ -121,7 +119,7 @@ class Sym:
 
     def make_lit(self, v):
         """Column._lit(v) / functions.lit(v) on a bare value (pinned)"""
-        if v[0] == "arg" and v[2] in ("str", "py"):
+        if v[0] == "arg" and v[2] in ("str", "py", "int", "int0"):
             return ("litcol", v[1])
         if v[0] == "const":
             return ("litcol", repr(v[1]))
@@ -135,6 +133,8 @@ class Sym:
         self.depth += 1
         if self.depth > 6:
             raise Untranslatable("call depth")
+        from vlib import py2v
+        fn = py2v.normalize_func(fn, rename_locals=False)      # no docstrings, annotations, logging, `pass`
         params = [a.arg for a in fn.args.args][1:]  # drop self/cls
         defaults = fn.args.defaults
         env = {"self": ("self",)}
@@ -190,7 +190,7 @@ class Sym:
         if isinstance(n, ast.Name):
             if n.id in env:
                 return env[n.id]
-            if n.id in ("str", "Column", "exp", "cls", "isinstance", "_operand", "get_func_from_session"):
+            if n.id in ("str", "int", "Column", "exp", "cls", "isinstance", "_operand", "get_func_from_session"):
                 return ("name", n.id)
             raise Untranslatable(f"unknown name {n.id}")
         if isinstance(n, ast.Attribute):
@@ -207,6 +207,21 @@ class Sym:
             if v[0] == "const" and isinstance(v[1], bool):
                 return ("const", not v[1])
             raise Untranslatable("not on " + repr(v))
+        if isinstance(n, ast.BoolOp):
+            is_and = isinstance(n.op, ast.And)
+            for v in n.values:                      # short-circuit, as Python does
+                x = self.ev(v, env)
+                if x[0] != "const" or not isinstance(x[1], bool):
+                    raise Untranslatable("and/or on undecided operand: " + ast.unparse(v))
+                if x[1] != is_and:
+                    return ("const", x[1])
+            return ("const", is_and)
+        if isinstance(n, ast.Compare) and len(n.ops) == 1 and isinstance(n.ops[0], (ast.Eq, ast.NotEq, ast.Lt, ast.LtE)):
+            a, b = self.ev(n.left, env), self.ev(n.comparators[0], env)
+            if a[0] == "arg" and a[2] in ("int0", "int") and b == ("const", 0) and isinstance(n.ops[0], (ast.Eq, ast.NotEq)):
+                r = a[2] == "int0"
+                return ("const", r if isinstance(n.ops[0], ast.Eq) else not r)
+            raise Untranslatable("comparison " + ast.unparse(n))     # e.g. `startPos < 1`: undecided for an arbitrary int
         if isinstance(n, ast.IfExp):
             t = self.ev(n.test, env)
             if t[0] != "const" or not isinstance(t[1], bool):
@@ -233,6 +248,14 @@ class Sym:
                 return ("const", x[0] == "arg" and x[2] == "str")
             if t == ("name", "Column"):
                 return ("const", self.is_column(x))
+            if t == ("name", "int"):
+                if x[0] == "arg" and x[2] in ("int0", "int"):
+                    return ("const", True)
+                if x[0] == "arg" and x[2] in ("str", "col"):
+                    return ("const", False)
+                if x[0] == "const":
+                    return ("const", isinstance(x[1], int))
+                raise Untranslatable("isinstance(<bare value of unknown type>, int)")
             raise Untranslatable("isinstance against " + repr(t))
         if f == ("name", "_operand"):
             if len(args) != 1 or kwargs:
@@ -413,17 +436,25 @@ def shapes(sym: Sym):
         if len(names) != 1:
             raise Untranslatable(f"{m}: function depends on the argument type")
         fns[m] = names.pop()
-    t = _strip_wrap(sym.call_method("substr", [("arg", "startPos", "py"), ("arg", "length", "py")], {}))
+    t = _strip_wrap(sym.call_method("substr", [("arg", "startPos", "int"), ("arg", "length", "int")], {}))
     if not (t[0] == "node" and t[2] == {"this": ("E", "self"), "start": ("L", "startPos"), "length": ("L", "length")}):
         ok = False
         notes.append(f"substr builds {t!r}")
     fns["substr"] = fn_name(t[1]) if t[0] == "node" else "?"
+    # a bare position 0 (Spark reads it as 1)
+    t = _strip_wrap(sym.call_method("substr", [("arg", "startPos", "int0"), ("arg", "length", "int")], {}))
+    if t[0] == "node" and t[2] == {"this": ("E", "self"), "start": ("L", "1"), "length": ("L", "length")}:
+        zero_as_one = True
+    elif t[0] == "node" and t[2] == {"this": ("E", "self"), "start": ("L", "startPos"), "length": ("L", "length")}:
+        zero_as_one = False
+    else:
+        raise Untranslatable(f"substr(0, n): template {t!r}")
     t = _strip_wrap(sym.call_method("substr", [("arg", "startPos", "col"), ("arg", "length", "col")], {}))
     if not (t[0] == "node" and t[2]["this"] == ("E", "self") and t[2].get("start", ("?",))[1:] == ("startPos",)
             and t[2].get("length", ("?",))[1:] == ("length",)):
         ok = False
         notes.append(f"substr(col, col) builds {t!r}")
-    return ok, inn_paren, like, fns, wraps[0], unalias == {True}, notes
+    return ok, inn_paren, like, fns, wraps[0], unalias == {True}, zero_as_one, notes
 
 
 EXPECTED_OPEN = {"EQ", "NEQ", "GT", "GTE", "LT", "LTE", "NullSafeEQ", "Is", "Not", "In", "Between", "Like", "ILike", "And", "Or"}
@@ -514,7 +545,7 @@ def generate(repo: str):
     neg = classify_un(sym, "__neg__")
     inv = classify_un(sym, "__invert__")
     open_classes = check_operand_classes(tree)
-    ok, inn_paren, like, fns, pred_wrap, btw_unalias, notes = shapes(sym)
+    ok, inn_paren, like, fns, pred_wrap, btw_unalias, zero_as_one, notes = shapes(sym)
     for u in UOPS:
         facts.append({"name": f"fwd[{u}]", "source": "column.py:Column dunder", "value": list(fwd[u])})
     for u in rev:
@@ -523,7 +554,8 @@ def generate(repo: str):
               {"name": "__invert__(not,paren)", "value": list(inv)},
               {"name": "shapes_ok", "value": ok, "notes": notes}, {"name": "isNotNull inner paren", "value": inn_paren},
               {"name": "like classes", "value": like}, {"name": "_operand classes", "value": open_classes},
-              {"name": "pred_opwrap", "value": pred_wrap}, {"name": "between_unalias", "value": btw_unalias}, {"name": "function names (DuckDB)", "value": fns},
+              {"name": "pred_opwrap", "value": pred_wrap}, {"name": "between_unalias", "value": btw_unalias},
+              {"name": "substr_zero_as_one", "value": zero_as_one}, {"name": "function names (DuckDB)", "value": fns},
               {"name": "getItem offsets: literal key / Column key / Column key containing a numeric literal", "value": [1, 0, 0], "source": "pinned getItem + element_at_using_brackets + sqlglot DuckDB index offset"}]
     lines = ["(* generated by translate/c05_facts.py from sqlframe/base/column.py -- do not edit *)",
              "From SF Require Import C05.Build.", "Open Scope string_scope.", ""]
@@ -539,7 +571,7 @@ def generate(repo: str):
     lines.append("Definition gen_cfg : cfg :=\n  mkCfg gen_fwd gen_rev " + bf(*nse)
                  + f"\n    (mkUF {b(neg[0])} {b(neg[1])}) (mkUF {b(inv[0])} {b(inv[1])}) {b(inn_paren)} {b(ok)}"
                  + f"\n    {like['like']} {like['ilike']} {strlit(fns['rlike'])} {strlit(fns['startswith'])} "
-                 + f"{strlit(fns['endswith'])} {strlit(fns['substr'])} 1%Z 0%Z 0%Z {b(pred_wrap)} {b(btw_unalias)}.")
+                 + f"{strlit(fns['endswith'])} {strlit(fns['substr'])} 1%Z 0%Z 0%Z {b(pred_wrap)} {b(btw_unalias)} {b(zero_as_one)}.")
     return "\n".join(lines) + "\n", facts
 
 
